@@ -149,6 +149,7 @@ static inline void dlist_del_init(struct dlist_head *entry)
 static inline void dlist_move(struct dlist_head *list, struct dlist_head *head)
 {
     __dlist_del(list->prev, list->next);
+    dlist_init(list); // head may be the entry itself
     dlist_add(list, head);
 }
 
@@ -161,6 +162,7 @@ static inline void dlist_move_tail(struct dlist_head *list,
                                    struct dlist_head *head)
 {
     __dlist_del(list->prev, list->next);
+    dlist_init(list); // head may be the entry itself
     dlist_add_tail(list, head);
 }
 #define dlist_move_prev(a, b) dlist_move_tail(a, b)
